@@ -417,7 +417,7 @@ def syncDelta (listReply : List (Uri × Nat)) (elements : List (Uri × Nat)) : D
   let all := elementMap elements
   { update := listReply.filterMap fun e =>
       match get? all e.1 with
-      | some h => if h ≠ e.2 then some (e.1, h, e.2) else none
+      | some h => if h = e.2 then none else some (e.1, h, e.2)
       | none => none
     withdraw := listReply.filter fun e => !has all e.1
     publish := all.filter fun e => !has listReply e.1 }
@@ -431,5 +431,47 @@ def applyDelta (server : List (Uri × Nat)) (d : Delta) : List (Uri × Nat) :=
 /-- `cas_repo_sync_single` for one CA with one repository. -/
 def syncRepo (server : List (Uri × Nat)) (o : CaObjects) : List (Uri × Nat) :=
   applyDelta server (syncDelta server (allPublishElements o))
+
+/-! ### Revocation requests of a child (`CertAuth::process_child_revoke_key`, certauth.rs:1422-1466) -/
+
+/-- `ChildDetails` as far as the revocation request looks at it. -/
+structure ChildM where
+  /-- key ↦ `some rcn` (`InUse(rcn)`) or `none` (`Revoked`) -/
+  usedKeys : List (Nat × Option Nat) := []
+  /-- `rcn_map`: name in the parent ↦ name the child is told -/
+  rcnMap   : List (Nat × Nat) := []
+deriving DecidableEq, Repr, Inhabited
+
+/-- `ChildDetails::parent_name_for_rcn`. -/
+def ChildM.parentNameForRcn (c : ChildM) (nameInChild : Nat) : Nat :=
+  match c.rcnMap.find? fun e => decide (e.2 = nameInChild) with
+  | some e => e.1
+  | none => nameInChild
+
+/-- `ChildDetails::is_issued`. -/
+def ChildM.isIssued (c : ChildM) (key : Nat) : Bool :=
+  match get? c.usedKeys key with
+  | some (some _) => true
+  | _ => false
+
+inductive RevokeOut where
+  /-- `Ok(vec![])`: nothing happens, the manager still sends a `RevocationResponse` -/
+  | ignored
+  /-- `Err(KeyUseNoIssuedCert)` -/
+  | error
+  /-- `ChildKeyRevoked` + `ChildCertificatesUpdated { removed: [key] }` for the parent's class -/
+  | revoked (myRcn key : Nat)
+deriving DecidableEq, Repr, Inhabited
+
+/-- The decision as the code takes it: the class-name test comes *before* the translation. -/
+def processChildRevokeKey (resources : List Nat) (c : ChildM) (childRcn key : Nat) : RevokeOut :=
+  if childRcn ∉ resources then .ignored
+  else if !c.isIssued key then .error
+  else .revoked (c.parentNameForRcn childRcn) key
+
+/-- `rfc6492_revoke` answers positively unless the command failed. -/
+def RevokeOut.positive : RevokeOut → Bool
+  | .error => false
+  | _ => true
 
 end KM.Ca.Pub
